@@ -14,6 +14,8 @@
 """Utility functions for the io module."""
 from __future__ import annotations
 
+import inspect
+
 from typing import List, Union
 from numbers import Number
 
@@ -21,6 +23,15 @@ import numpy as np
 
 from strawberryfields.program import Program
 from strawberryfields.tdm import TDMProgram
+
+
+def _constructor_params(op) -> list:
+    """Parameters to pass to the constructor of ``op``'s class in order to rebuild ``op``:
+    ``op.p``, unless the constructor takes no arguments (the parameter of ``Fouriergate``,
+    for instance, is fixed by the class)."""
+    if len(inspect.signature(type(op).__init__).parameters) == 1:
+        return []
+    return list(op.p)
 
 
 def generate_code(prog: Program, eng=None) -> str:
@@ -103,9 +114,9 @@ def generate_code(prog: Program, eng=None) -> str:
         name = cmd.op.__class__.__name__
         if isinstance(prog, TDMProgram):
             format_dict = {k: f"p[{k[1:]}]" for k in prog.parameters.keys()}
-            params_str = _factor_out_pi(cmd.op.p).format(**format_dict)
+            params_str = _factor_out_pi(_constructor_params(cmd.op)).format(**format_dict)
         else:
-            params_str = _factor_out_pi(cmd.op.p)
+            params_str = _factor_out_pi(_constructor_params(cmd.op))
 
         modes = [f"q[{r.ind}]" for r in cmd.reg]
         if len(modes) == 1:
